@@ -45,7 +45,20 @@ func (Prop) Rule() string {
 		"for 128-EIA3 and ZUC-256 MAC with 4/8/16-byte tags x 2 keys x 3 message patterns; every 2-partition of every byte length 0..80 (thorough 0..200) through Write/Write/Sum. " +
 		"MAC E1: engine.BFS over {Write(c) for 20 chunk sizes around the 16-byte block, Reset, Finish(b bits) for 14 values of b} with Sum(nil)/Sum(prefix) compared with the reference after every step, " +
 		"Sum must leave the reflect dump unchanged, depth 3 (thorough 4); reuse after Finish/Reset is checked by continuing the history against a model restarted from zero. " +
-		"distinct_nontrivial counts distinct reached object states plus distinct (variant, bit length mod 128, pattern) and (length, offset) classes."
+		"distinct_nontrivial counts distinct reached object states plus distinct (variant, bit length mod 128, pattern) and (length, offset) classes. " +
+		"Widened input dimensions (widen.go, case names widen/...): " +
+		"bucket sizes {-1, MinInt, 2, 127, 255, 257, 383, 385, 500, 512, 513, 1000, 1024, 2^20, MaxInt-127, MaxInt-126, MaxInt} (BFS over the 54 operations to depth 2, thorough 3, plus XORKeyStream(129) x 8 with one departure); " +
+		"caller-memory layouts of dst/src {src||dst, dst||src, dst covering src, dirty spare capacity behind both, in place with spare capacity, in place with a longer dst, nil / exact capacity} as part of the operation alphabet (BFS depth 2, thorough: all 54 operations x 7 layouts to depth 3), the whole memory image of the caller's arrays is compared: only dst[:len(src)] may change; " +
+		"empty and nil calls (l=0 as nil/nil, empty/empty, empty src with a 9-byte dst; XORKeyStreamAt with l=0 is a pure seek) to depth 3 (thorough 4); " +
+		"far positions: every ordered pair of offsets from {8191,8192,8193,65535,65536,65537,2^20-1,2^20,2^20+1} in an 8-call history forwards and backwards, bucket sizes {0,128,200,4096,65536,2^20} (checkpoint lists up to 8193 entries); " +
+		"key/IV values: 7 uniform patterns, every single byte 0xff in zeros and 0x00 in ones, single-bit walks (quick: key[31] and iv[17..22] of ZUC-256; thorough: every bit) for the stream and all four MACs; " +
+		"constructor arguments: EEA3/EIA3 constructors, one slice pair handed to three constructors in turn with the objects then used alternately, key||iv / iv||key / overlapping records with dirty slack, every key and IV length 0..40 (nil included) and every tag size -17..65 (sizes without a ZUC variant must be rejected, no panic, the standard sizes keep working in between); " +
+		"EEA3/EIA3 fields: 13 COUNT values x 32 bearers x 2 directions, EEA3 bucket sizes {none,0,1,129,1024} with three backward seeks; " +
+		"MAC buffers: Sum(in) with len(in) in {0,1,5} x spare capacity {0,1,tag-1,tag,tag+1,tag+40} filled with dirty bytes, every returned tag overwritten by the harness (Sum/Sum, Sum/Finish, Finish/Finish must not share memory with each other or the object), " +
+		"Finish(p,nbits) with p exact / longer than ceil(nbits/8) / dirty capacity behind / nil, p unchanged, Write(nil)/Write(empty), messages at 17 start offsets inside a dirty record; " +
+		"MAC pairs: every ordered pair of bit lengths 0..264 (thorough 0..520) through Finish and of byte lengths 0..48 (thorough 0..100) through Write/Sum/Reset on one object, the two messages with different contents; " +
+		"alternation: 16 kinds of objects (streams and MACs, two keys / IVs each) x 16 kinds x 4 x 4 operations interleaved in one process; " +
+		"message byte values: every value 0..255 of one byte at every position of a 16-byte (thorough 32-byte) otherwise zero message, all four MACs."
 }
 
 func (Prop) Assumptions() []string {
@@ -54,9 +67,13 @@ func (Prop) Assumptions() []string {
 		"the quantifier over keys is not enumerated: one fixed key/IV pattern per variant for the stream searches and the MAC histories, two (a mixed pattern and all-0xff) for the MAC bit-length sweeps; the control flow of the implementation does not depend on key material",
 		"the buffer mode (disjoint / in place / longer dst) is rotated along the histories, not multiplied with them; the E2 sweeps run all three modes",
 		"a wrong tag does not corrupt the MAC object (Sum works on a copy, Finish resets), so the MAC searches continue past tag mismatches and report them once per finding key and case",
-		"positions explored stay below 4 KiB; offsets >= 2^31 (int conversions of the 64-bit position) and streams long enough to wrap counters are not explored",
+		"positions explored by the searches and sweeps stay below 4 KiB (far-offset histories of widen.go: below 2^20+4096); offsets >= 2^31 (int conversions of the 64-bit position) and streams long enough to wrap counters are not explored",
 		"dispatch tiers are those reachable on this amd64 host via GODEBUG=cpu.*=off and -tags purego; arm64 and ppc64 assembly is not covered",
-		"calls that violate a documented precondition answered by a panic (dst shorter than src, inexact overlap, Finish with len(p) < ceil(nbits/8)) are not enumerated",
+		"calls that violate a documented precondition answered by a panic (dst shorter than src, inexact overlap, Finish with len(p) < ceil(nbits/8), negative nbits) are not enumerated, nor is the state of an object after such a panic",
+		"offsets that need more than a few MiB of discarded keystream (2^31, 2^32, 2^64-1) are not explored because ZUC has no random access and the bitwise reference would have to produce the whole prefix",
+		"EEA3/EIA3 constructors: bearer >= 32 and direction >= 2 are outside the 5-bit / 1-bit fields of the standard and are not enumerated",
+		"constructor sizes: a key/IV size pair for which no ZUC variant exists must be rejected (the constructors document an error); 32-byte key with 25-byte IV (unpacked ZUC-256 IV of other library versions) and size pairs of the other variant are not judged",
+		"writes of Sum(in) into the spare capacity of in beyond the appended tag are not judged (append-like use of spare capacity); judged are in[:len(in)], the returned slice and the independence of the result from the bytes in the spare capacity",
 		"thorough tier: the 187-operation alphabet is explored to depth " + fmt.Sprint(thoroughBigDepth) + " and the 54-operation alphabet to depth " + fmt.Sprint(thoroughSmallDepth) + " (see Rule); deeper histories are not explored",
 	}
 }
@@ -198,6 +215,7 @@ func seekClass(at bool, off, pos int) string {
 
 // apply performs one operation in the given buffer mode and checks the output. It returns false on a violation.
 func apply(t *engine.T, b *bufs, exp []byte, s *sstate, o sop, m int, bucketClass string) bool {
+	t.Eval(0) // heartbeat only: the searches count their transitions themselves, but a search may run for minutes on a loaded host
 	p := s.pos
 	if o.at {
 		p = o.off
@@ -534,6 +552,7 @@ func macMachine(col *collector, b *bufs, mvi int) engine.Machine[*mstate] {
 		New:  func() *mstate { return &mstate{h: mv.new(0)} },
 		Ops:  names,
 		Step: func(s *mstate, op int, t *engine.T) bool {
+			t.Eval(0) // heartbeat only
 			s.hist = append(s.hist, names[op])
 			switch {
 			case op < nW:
@@ -899,4 +918,7 @@ func (Prop) Run(c *engine.Ctx) {
 			}
 		}
 	})
+
+	// ---- the generic input dimensions of DESIGN.md 11.4 (widen.go)
+	runWiden(c)
 }
